@@ -259,7 +259,7 @@ func main() {
 	emit(run, "fixed/len-max", "c", -1, append(varint(1<<21-1), bytes.Repeat([]byte{0x7f}, 1<<21-1)...))
 	emit(run, "fixed/prefix-6-bytes", "s", -1, []byte{0x80, 0x80, 0x80, 0x80, 0x80, 0x01, 0x01})
 
-	n := run.Scale(2500, 40000)
+	n := run.Scale(2500, 12000)
 	for i := 0; i < n; i++ {
 		thr := hx.Pick(r, thresholds)
 		if thr == 1<<20 && !r.Chance(1, 12) {
